@@ -4,9 +4,38 @@ from .. import core
 from ..runner import Spec
 
 W_MAX = 2 ** 30
-# generator restrictions around the open findings (see known_findings.json); set C16_UNRESTRICTED=1 on a tree where
-# the proposed fixes are applied to explore behind them
-UNRESTRICTED = os.environ.get("C16_UNRESTRICTED") == "1"
+
+_FLAGS = None
+
+
+def source_flags():
+    """source-shape flags regenerated from the CURRENT headers by tools/trules/varopt.py at the start of this run
+    (lean/DSGen/VarOpt.lean).  All false = the tree the check was first built on; a missing file = all false."""
+    global _FLAGS
+    if _FLAGS is None:
+        import re
+        try:
+            txt = open(os.path.join(core.LEAN, "DSGen", "VarOpt.lean")).read()
+            _FLAGS = {k: v == "true" for k, v in re.findall(r"def varopt_(\w+) : Bool := (true|false)", txt)}
+        except Exception:
+            _FLAGS = {}
+    return _FLAGS
+
+
+def flag(name):
+    return bool(source_flags().get(name)) or os.environ.get("C16_UNRESTRICTED") == "1"
+
+
+# The generators keep away from an operation only while the defect behind it is present in the CURRENT source (flag off):
+#   get_result() on a deserialized estimation-mode union : needs deserializeM0 (else it throws) and marksInit (else UBSan)
+#   reset() of a deserialized sketch / union             : needs resetRealloc (else heap overflow on the next updates)
+# Both remain exercised by the dedicated witnesses of extra_stages.  C16_UNRESTRICTED=1 lifts everything.
+def may_use_deserialized_union():
+    return flag("deserializeM0") and flag("marksInit")
+
+
+def may_reset_deserialized():
+    return flag("resetRealloc")
 
 
 def fh(x):
@@ -122,7 +151,7 @@ def gen_single(rng, tier):
             deser.add(d)
             if rng.random() < 0.5:
                 live.append(d)          # keep using the deserialized sketch
-        elif r < 0.10 and (tgt not in deser or UNRESTRICTED):
+        elif r < 0.10 and (tgt not in deser or may_reset_deserialized()):
             g.lines.append("reset %d" % tgt)
     return g.lines
 
@@ -168,7 +197,7 @@ def gen_union(rng, tier):
             d = g.new_id()
             g.lines.append("userde %d %d" % (uid, d))
             deser_unions.add(d)
-            if (fed > maxk or any_est) and not UNRESTRICTED:
+            if (fed > maxk or any_est) and not may_use_deserialized_union():
                 # The gadget went through deserialize() in estimation mode: on the pinned code every later update
                 # throws (known finding update-after-deserialize) and get_result() can read uninitialised marks
                 # (known finding, demonstrated by a dedicated witness in extra_stages): exhibit the throw, move on.
@@ -195,7 +224,7 @@ def gen_union(rng, tier):
             g.lines.append("unew %d %d" % (u2, rng.choice([2, 8, 32])))
             g.lines.append("umerge %d %d %s" % (u2, d, draws(rng, 45, 45)))
             res(u2)
-    if rng.random() < 0.1 and (uid not in deser_unions or UNRESTRICTED):
+    if rng.random() < 0.1 and (uid not in deser_unions or may_reset_deserialized()):
         g.lines.append("ureset %d" % uid)
         res(uid)
     return g.lines
@@ -416,7 +445,7 @@ def valid_weight(x):
 
 class C16(Spec):
     pid = "C16"
-    props_modules = ["DSProofs.Props.C16"]
+    props_modules = ["DSProofs.Props.C16", "DSProofs.Props.C16_Repaired"]
     harness = "varopt_h"
     model_exe = "dsmodel_varopt"
     family = "varopt"
@@ -428,7 +457,9 @@ class C16(Spec):
             "stream) / reset in between, unions of 2-5 sketches of different k and fill (empty, under-full, exactly full, k+1, far "
             "over) into max_k 1..40 with intermediate get_result / union serialize->deserialize / copy, further updates of union "
             "results, dedicated pseudo-exact unions, plus a malformed stream (k=0, k>MAX_K, weights 0/-0/negative/NaN/inf/denormal, "
-            "dead objects); every uniform draw is supplied on the op line through the H2 hook (incl. 0.0 redraws and boundary values). "
+            "dead objects); get_result() on deserialized unions and reset() of deserialized objects are generated whenever the source-shape "
+            "flags say the corresponding repair is present; every uniform draw is supplied on the op line through the H2 hook (incl. 0.0 "
+            "redraws and boundary values). "
             "A history is non-trivial when some sketch reached estimation mode or a union result was produced; "
             "distinct = distinct (k's, final n's, final sample counts, number of draws consumed) signature")
     trusted_base = ["Lean 4.33 kernel", "axioms: propext, Quot.sound, Classical.choice",
@@ -436,7 +467,8 @@ class C16(Spec):
                     "definitions is what is compared bit for bit with the real headers (floating-point rounding is not modelled in theorems)",
                     "correspondence harness harness/varopt_h.cpp + generators (sampled histories; public-API observations; ASan+UBSan)",
                     "random-source hook H2 (var_opt_sketch::next_int / next_double_exclude_zero read the harness-supplied draws)",
-                    "tools/trules/varopt.py (MAX_K, MIN_LG_ARR_ITEMS, DEFAULT_KAPPA, default resize factor, coercer tolerance, erf coefficients)"]
+                    "tools/trules/varopt.py (MAX_K, MIN_LG_ARR_ITEMS, DEFAULT_KAPPA, default resize factor, coercer tolerance, valid-mode slack, erf "
+                    "coefficients, and seven source-shape flags selecting the model variant / generator restrictions; unknown shape = translation failure)"]
     assumptions = ["items are int64 (the harness instantiation); item identity plays no role in the algorithm",
                    "pseudo_hypergeometric_{lb,ub}_on_p are abstract in vo_subset_bounds_partial: hypothesis 0 <= lb <= r_true/r <= ub",
                    "serialize->deserialize is modelled as a state transformer (byte layout: C09/C10)",
@@ -583,8 +615,8 @@ class C16(Spec):
                     bad.append(("bad-observation", out[:60], i)); continue
                 if L.obs is not None and not L.tainted and (o["n"], o["k"], o["ns"], o["items"], o["subs"]) != (L.obs["n"], L.obs["k"], L.obs["ns"], L.obs["items"], L.obs["subs"]):
                     bad.append(("%s-differs-from-source" % op, out[:80], i))
-                if op == "serde" and o["n"] > o["ns"]:
-                    L.stale = True
+                if op == "serde" and o["n"] > o["ns"] and not source_flags().get("deserializeM0"):
+                    L.stale = True      # the unrepaired reader leaves m_ = 1: the known root cause of later throws
                 sk[dst] = L
                 L.obs = o
             elif op == "reset":
@@ -653,7 +685,8 @@ class C16(Spec):
                 L.tainted = U.tainted
                 L.n, L.total, L.exact = U.n, U.total, False
                 L.stale = U.stale and o["n"] > o["ns"]
-                L.pe_shaped = U.any_est and U.fed <= U.maxk and o["n"] > o["ns"]
+                L.pe_shaped = (U.any_est and U.fed <= U.maxk and o["n"] > o["ns"] and
+                               not (source_flags().get("coercerOuterTau") and source_flags().get("coercerHeapify")))
                 check_sketch(L, o, bad, i, "union-result-")
                 L.k = o["k"]
                 L.obs = o
@@ -667,7 +700,7 @@ class C16(Spec):
                     un.pop(dst, None)
                     continue
                 U = un[src].clone()
-                if op == "userde" and (U.any_est or U.fed > U.maxk):
+                if op == "userde" and (U.any_est or U.fed > U.maxk) and not source_flags().get("deserializeM0"):
                     U.stale = True       # the gadget was in estimation mode when it went through deserialize()
                 un[dst] = U
             elif op == "ureset":
@@ -696,41 +729,48 @@ class C16(Spec):
 SPEC = C16()
 
 CLAIM = dict(
-    text=("Kernel-checked theorems (Rat instance of the model; every configuration, every stream of positive weights, every draw "
-          "sequence, no length bounds) about an executable Lean model of var_opt_sketch / var_opt_union that follows the code slot by "
-          "slot (H min-heap sifts as coded, M/R regions, warm-up, transition, light / heavy r=1 / heavy general update, "
-          "grow/downsample/choose_delete_slot, decrease_k_by_1, gadget marks, merge_items with the weight-correcting R iterator, "
-          "resolve_tau, the three get_result coercers, serialize->deserialize as a state transformer): "
+    text=("Kernel-checked theorems (Rat instance of the model; every configuration incl. every source-shape variant `T`, every stream of "
+          "positive weights, every draw sequence, no length bounds) about an executable Lean model of var_opt_sketch / var_opt_union "
+          "that follows the code slot by slot (H min-heap sifts as coded, M/R regions, warm-up, transition, light / heavy r=1 / heavy "
+          "general update, grow/downsample/choose_delete_slot, decrease_k_by_1, gadget marks, merge_items with the weight-correcting "
+          "R iterator, resolve_tau, the three get_result coercers, serialize->deserialize as a state transformer): "
           "vo_size (update never throws; n counted; h + r = num_samples = min(n,k); H entries are inputs with their weights, R items are "
           "input items); vo_weight_conserved (sum_H w + total_wt_r = sum of inputs; iterator weights and estimate_subset_sum(true) equal "
           "the total); vo_heavy_exact (tau never decreases along a stream; every H entry >= tau incl. peek_min; every input heavier "
           "than tau is in H with its exact weight); vo_subset_bounds_partial (lb <= estimate <= ub for every predicate, given that the "
           "two fraction bounds bracket r_true/r); vo_one_step_unbiased (exact u-intervals of choose_delete_slot: P[keep j]*tau' = w_j "
           "for M candidates, tau/tau' for R items); vo_union (no update of a union throws; n = sum n_i; any returned result has that n, "
-          "represents exactly the combined weight, h + r <= k_result <= max_k, no marks); vo_union_wellformed_partial (the result is a "
-          "valid estimation-mode state unless the pseudo-exact mark-moving coercer produced it) with vo_union_wellformed_full_false "
-          "(witness: that coercer returns an H item lighter than tau); vo_serde_update_partial (deserialize(serialize(s)) answers every "
-          "query identically and, in warm-up, keeps accepting updates) with vo_serde_update_full_false (witness: an estimation-mode "
-          "sketch throws on the next update after deserialize). The Float instance of the same definitions reproduces the real headers "
-          "bit for bit (iterator weights, lb/est/ub/total of three predicates, draws consumed) on generated histories with hook-supplied "
-          "draws, and the property oracle (totals, heavy-item inclusion, tau monotone, heap order, bounds order) runs on every trace."),
-    note=("NOT formalised: the global 'subset-sum estimates are unbiased over the sampling randomness' statement about whole histories "
+          "represents exactly the combined weight, h + r <= k_result <= max_k, no marks). For the source shapes that /repo carries "
+          "NOW (read from the headers by the translator on every run: vo_source_shapes_current) the two statements that were false on "
+          "the tree the check was first built on hold in full: vo_serde_update_current (a sketch left by any stream, in any mode, sent "
+          "through serialize->deserialize keeps accepting every update) and vo_union_wellformed_current (whatever get_result returns "
+          "is a valid estimation-mode state: H a min-heap, no H item below tau; uses the resolve_tau bookkeeping invariant). The old "
+          "shapes stay covered: vo_serde_update_full_false / vo_union_wellformed_full_false (concrete witnesses at the all-flags-off "
+          "tunables) with vo_serde_update_partial / vo_union_wellformed_partial. The Float instance of the same definitions, with the "
+          "flags of the current headers, reproduces the real headers bit for bit (iterator weights, lb/est/ub/total of three "
+          "predicates, draws consumed) on generated histories with hook-supplied draws, and the property oracle (totals, heavy-item "
+          "inclusion, tau monotone, heap order, bounds order, no throw on valid use) runs on every trace."),
+    note=("Defects FOUND by this check on the pinned tree and REPAIRED in /repo (known_findings.json status fixed; proposed_fixes/C16-*): "
+          "dbbe534 deserialize() restored an estimation-mode sketch/union with m_ = 1 so every later update threw; cb4d600 deserialize() "
+          "left marks_ beyond h uninitialised (UBSan in decrease_k_by_1 after union deserialize); 9b12d7b reset() kept the too-small "
+          "arrays of a deserialized sketch (ASan heap-buffer-overflow); 74c906d the pseudo-exact union coercer compared H items with a "
+          "NaN tau and did not re-heapify (results with H items below tau / unordered H; later updates threw or evicted heavy items); "
+          "dc2ac23 its absolute 1e-10 tolerance made get_result() throw (and leak) for equal-tau inputs with large weights; ff5b1bd "
+          "update()'s sanity check compared peek_min with the rounded tau exactly (spurious logic_error on union results and inside "
+          "var_opt_union::update). The generators and the oracle keying follow the source-shape flags: on the repaired tree nothing is "
+          "steered around (get_result() on deserialized unions, reset() of deserialized objects are in the random streams) and no "
+          "symptom is attributed to a known root cause; reverting any one fix flips its flag and yields a VIOLATION with a failing "
+          "input (checked for all six). A source shape that is neither the old nor the repaired one is a translation failure. "
+          "NOT formalised: the global 'subset-sum estimates are unbiased over the sampling randomness' statement about whole histories "
           "(only the one-step identity vo_one_step_unbiased is proved; the martingale argument is not). Floating-point rounding is not "
-          "modelled in the theorems: three findings exist only in floating point and have no Lean counterpart (union-result-throws, "
-          "update-throws-on-union-result, union-update-throws); integer weights < 2^30 keep plain-sketch totals exact in the correspondence runs, union "
-          "totals are compared to 1e-9. The analytic fact lb_frac <= r_true/r <= ub_frac about bounds_binomial_proportions "
-          "(sqrt/exp/pow) is a hypothesis of vo_subset_bounds_partial and is checked on traces only. get_result() 'returns' is a "
-          "hypothesis of vo_union (it can throw for k <= 1 corner cases and in floating point). 'Smallest effective k' is read as the k of "
-          "the returned sketch (<= max_k): an exact-mode input contributes all its items, so min k_i of the inputs is not a bound the "
-          "algorithm has. A change of the heap's tie-breaking is reported as a correspondence divergence (no failing input) although it "
-          "preserves the property: array order of H is observable through the iterator and decides which slot a draw deletes. "
-          "Generator restrictions around open findings: no get_result() on a deserialized estimation-mode union and no reset() of a "
-          "deserialized sketch / union in the random streams (both are exercised by dedicated witnesses; C16_UNRESTRICTED=1 lifts them). "
-          "Open findings on the pinned code (known_findings.json, proposed_fixes/C16-*): update after deserialize() of an "
-          "estimation-mode sketch / union throws (m_ = 1); the pseudo-exact union coercer compares against NaN and does not re-heapify "
-          "(results with H items lighter than tau / not heap ordered; later updates throw or evict heavy items); get_result() throws and "
-          "leaks for equal-tau inputs with large weights (absolute 1e-10 tolerance); update() of a union result and var_opt_union::update() itself can throw because "
-          "total_wt_r_/r_ rounds one ulp above an H weight; decrease_k_by_1 reads uninitialised marks after union deserialize (UBSan); "
-          "reset() after deserialize of an under-full sketch leads to a heap-buffer-overflow (ASan)."),
-    technique="Lean 4 invariant proofs over an ops-only numeric class (Rat) + bit-exact differential correspondence (Float) with hook-supplied draws + trace oracle",
+          "modelled in the theorems: the tolerance and rounded-tau repairs have no counterpart over Rat (the Float instance + oracle "
+          "cover them); the marks-initialisation and reset repairs are below the level of the model (dedicated sanitizer witnesses). "
+          "Integer weights < 2^30 keep plain-sketch totals exact in the correspondence runs, union totals are compared to 1e-9. The "
+          "analytic fact lb_frac <= r_true/r <= ub_frac about bounds_binomial_proportions (sqrt/exp/pow) is a hypothesis of "
+          "vo_subset_bounds_partial and is checked on traces only. get_result() 'returns' is a hypothesis of vo_union (it can throw "
+          "for k <= 1 corner cases). 'Smallest effective k' is read as the k of the returned sketch (<= max_k): an exact-mode input "
+          "contributes all its items, so min k_i of the inputs is not a bound the algorithm has. A change of the heap's tie-breaking "
+          "is reported as a correspondence divergence (no failing input) although it preserves the property: array order of H is "
+          "observable through the iterator and decides which slot a draw deletes."),
+    technique="Lean 4 invariant proofs over an ops-only numeric class (Rat), parametric in the source-shape flags read from the headers + bit-exact differential correspondence (Float) with hook-supplied draws + trace oracle",
     design="DESIGN.md §3 C16")
